@@ -1,0 +1,173 @@
+//go:build verif
+
+package state
+
+// Contracts for the govc verifier (/verif). Comment-only: with the `verif` build tag on this
+// file adds no code, and with the tag off it is not compiled at all.
+// Syntax: /verif/DESIGN.md §2.1.
+
+//@ type State
+//@   guarded_by lock : blocksRequested blocksToRequest pendingBlockSize lastSavedHash requestedBlock.block requestedBlock.size requestedBlock.hash
+
+//@ spec filled(r) = r.block != nil
+//@ spec pend(s, k) = ite(k < len(s.blocksRequested) && filled(s.blocksRequested[k]), s.blocksRequested[k].size, 0)
+//@ spec InvQ(s) = len(s.blocksRequested) <= 10
+//@      && forall(k, 0, len(s.blocksRequested), s.blocksRequested[k] != nil)
+//@      && forall(j, 0, len(s.blocksRequested), forall(k, 0, len(s.blocksRequested), j != k ==> s.blocksRequested[j] != s.blocksRequested[k]))
+//@      && s.pendingBlockSize == sum(k, 0, 10, pend(s, k))
+//@ spec firstHit(s, k, h) = s.blocksRequested[k].hash == h && forall(j, 0, k, s.blocksRequested[j].hash != h)
+//@ spec cellsSame() = forall(r *requestedBlock, !fresh(r) ==> r.block == old(r.block) && r.size == old(r.size) && r.hash == old(r.hash))
+
+//@ func (*State).AddBlock
+//@   serves C13
+//@   atomic lock
+//@   requires hash != nil && block != nil && InvQ(state)
+//@   ensures found: result <==> exists(k, 0, old(len(state.blocksRequested)), old(state.blocksRequested[k].hash) == *hash)
+//@   ensures queues: same(state.blocksRequested, state.blocksToRequest, state.lastSavedHash) && sameseq(state.blocksRequested)
+//@   ensures ignored: !result ==> same(state.pendingBlockSize) && cellsSame()
+//@   ensures fills: forall(k, 0, len(state.blocksRequested), old(firstHit(state, k, *hash)) ==> state.blocksRequested[k].block == block && state.blocksRequested[k].size == SerializeSize(block))
+//@   ensures others: forall(k, 0, len(state.blocksRequested), !old(firstHit(state, k, *hash)) ==> same(state.blocksRequested[k].block, state.blocksRequested[k].size))
+//@   ensures hashes: forall(r *requestedBlock, !fresh(r) ==> r.hash == old(r.hash))
+//@   ensures inv: InvQ(state)
+//@   split inv : _i 0 10
+//@   loop 0 invariant 0 <= _i && _i <= len(state.blocksRequested)
+//@   loop 0 invariant forall(k, 0, _i, state.blocksRequested[k].hash != *hash)
+
+//@ spec lastOf(s) = ite(len(s.blocksToRequest) > 0, s.blocksToRequest[len(s.blocksToRequest)-1],
+//@      ite(len(s.blocksRequested) > 0, s.blocksRequested[len(s.blocksRequested)-1].hash, s.lastSavedHash))
+//@ spec limit(s) = len(s.blocksRequested) >= 10 || s.pendingBlockSize > 100000000
+//@ spec hitR(s, h) = exists(k, 0, len(s.blocksRequested), s.blocksRequested[k].hash == h)
+//@ spec hitT(s, h) = exists(k, 0, len(s.blocksToRequest), s.blocksToRequest[k] == h)
+//@ spec firstHitT(s, k, h) = s.blocksToRequest[k] == h && forall(j, 0, k, s.blocksToRequest[j] != h)
+//@ spec prefixR(s) = len(s.blocksRequested) <= old(len(s.blocksRequested)) && forall(k, 0, len(s.blocksRequested), s.blocksRequested[k] == old(s.blocksRequested[k]))
+//@ spec prefixT(s) = len(s.blocksToRequest) <= old(len(s.blocksToRequest)) && forall(k, 0, len(s.blocksToRequest), s.blocksToRequest[k] == old(s.blocksToRequest[k]))
+
+//@ func (*State).AddBlockRequest
+//@   serves C13 C02
+//@   atomic lock
+//@   requires prevHash != nil && hash != nil && InvQ(state)
+//@   ensures wrong: *prevHash != old(lastOf(state)) ==> result1 == ErrWrongPreviousHash && !result0
+//@        && same(state.blocksRequested, state.blocksToRequest) && sameseq(state.blocksRequested, state.blocksToRequest)
+//@   ensures linked: result1 == nil ==> *prevHash == old(lastOf(state)) && lastOf(state) == *hash
+//@   ensures queued: *prevHash == old(lastOf(state)) && (old(len(state.blocksToRequest)) > 0 || old(limit(state))) ==> result1 == nil && !result0
+//@        && len(state.blocksToRequest) == old(len(state.blocksToRequest)) + 1
+//@        && forall(k, 0, old(len(state.blocksToRequest)), state.blocksToRequest[k] == old(state.blocksToRequest[k]))
+//@        && state.blocksToRequest[len(state.blocksToRequest)-1] == *hash
+//@        && same(state.blocksRequested) && sameseq(state.blocksRequested)
+//@   ensures requested: *prevHash == old(lastOf(state)) && old(len(state.blocksToRequest)) == 0 && !old(limit(state)) ==> result1 == nil && result0
+//@        && len(state.blocksRequested) == old(len(state.blocksRequested)) + 1
+//@        && forall(k, 0, old(len(state.blocksRequested)), state.blocksRequested[k] == old(state.blocksRequested[k]))
+//@        && fresh(state.blocksRequested[len(state.blocksRequested)-1])
+//@        && state.blocksRequested[len(state.blocksRequested)-1].hash == *hash && !filled(state.blocksRequested[len(state.blocksRequested)-1])
+//@        && len(state.blocksToRequest) == 0
+//@   ensures window: result0 ==> !old(limit(state))
+//@   ensures frame: same(state.pendingBlockSize, state.lastSavedHash) && cellsSame()
+//@   ensures inv: InvQ(state)
+
+//@ func (*State).NextBlock
+//@   serves C13
+//@   atomic lock
+//@   requires InvQ(state)
+//@   ensures none: old(len(state.blocksRequested)) == 0 || !old(filled(state.blocksRequested[0])) ==> result == nil
+//@        && same(state.blocksRequested, state.pendingBlockSize, state.lastSavedHash) && sameseq(state.blocksRequested)
+//@   ensures pop: old(len(state.blocksRequested)) > 0 && old(filled(state.blocksRequested[0])) ==> result == old(state.blocksRequested[0].block) && result != nil
+//@        && len(state.blocksRequested) == old(len(state.blocksRequested)) - 1
+//@        && forall(k, 0, len(state.blocksRequested), state.blocksRequested[k] == old(state.blocksRequested[k+1]))
+//@        && state.pendingBlockSize == old(state.pendingBlockSize) - old(state.blocksRequested[0].size)
+//@        && state.lastSavedHash == old(state.blocksRequested[0].hash)
+//@   ensures frame: same(state.blocksToRequest) && sameseq(state.blocksToRequest) && cellsSame()
+//@   ensures inv: InvQ(state)
+
+//@ func (*State).GetNextBlockToRequest
+//@   serves C13
+//@   atomic lock
+//@   requires InvQ(state)
+//@   ensures none: old(len(state.blocksToRequest)) == 0 || old(limit(state)) ==> result0 == nil && result1 == -1
+//@        && same(state.blocksRequested, state.blocksToRequest) && sameseq(state.blocksRequested, state.blocksToRequest)
+//@   ensures move: old(len(state.blocksToRequest)) > 0 && !old(limit(state)) ==> result0 != nil && *result0 == old(state.blocksToRequest[0])
+//@        && len(state.blocksToRequest) == old(len(state.blocksToRequest)) - 1
+//@        && forall(k, 0, len(state.blocksToRequest), state.blocksToRequest[k] == old(state.blocksToRequest[k+1]))
+//@        && len(state.blocksRequested) == old(len(state.blocksRequested)) + 1
+//@        && forall(k, 0, old(len(state.blocksRequested)), state.blocksRequested[k] == old(state.blocksRequested[k]))
+//@        && fresh(state.blocksRequested[len(state.blocksRequested)-1])
+//@        && state.blocksRequested[len(state.blocksRequested)-1].hash == old(state.blocksToRequest[0]) && !filled(state.blocksRequested[len(state.blocksRequested)-1])
+//@        && result1 == len(state.blocksRequested)
+//@   ensures frame: same(state.pendingBlockSize, state.lastSavedHash) && cellsSame()
+//@   ensures inv: InvQ(state)
+
+//@ func (*State).ClearBlockRequests
+//@   serves C13
+//@   atomic lock
+//@   requires InvQ(state)
+//@   ensures cleared: len(state.blocksRequested) == 0 && len(state.blocksToRequest) == 0 && same(state.lastSavedHash)
+//@   ensures inv: InvQ(state)
+
+//@ func (*State).ClearBlockRequestsAfter
+//@   serves C13
+//@   atomic lock
+//@   requires InvQ(state)
+//@   ensures inR: old(hitR(state, hash)) ==> len(state.blocksToRequest) == 0 && prefixR(state)
+//@        && forall(k, 0, old(len(state.blocksRequested)), old(firstHit(state, k, hash)) ==> len(state.blocksRequested) == k + 1)
+//@   ensures inT: !old(hitR(state, hash)) && old(hitT(state, hash)) ==> same(state.blocksRequested) && sameseq(state.blocksRequested) && prefixT(state)
+//@        && forall(k, 0, old(len(state.blocksToRequest)), old(firstHitT(state, k, hash)) ==> len(state.blocksToRequest) == k + 1)
+//@   ensures miss: !old(hitR(state, hash)) && !old(hitT(state, hash)) ==> same(state.blocksRequested, state.blocksToRequest) && sameseq(state.blocksRequested, state.blocksToRequest)
+//@   ensures frame: same(state.lastSavedHash) && cellsSame()
+//@   ensures inv: InvQ(state)
+//@   loop 0 invariant 0 <= _i && _i <= len(state.blocksRequested)
+//@   loop 0 invariant forall(k, 0, _i, state.blocksRequested[k].hash != hash)
+//@   loop 1 invariant 0 <= _i1 && i + 1 + _i1 <= len(state.blocksRequested) && 0 <= i && i < len(state.blocksRequested)
+//@   loop 1 invariant same(state.blocksRequested, state.blocksToRequest, state.lastSavedHash) && cellsSame()
+//@   loop 1 invariant state.pendingBlockSize == sum(k, 0, 10, ite(k <= i || k >= i + 1 + _i1, pend(state, k), 0))
+//@   loop 2 invariant 0 <= _i && _i <= len(state.blocksToRequest)
+//@   loop 2 invariant forall(k, 0, _i, state.blocksToRequest[k] != hash)
+
+//@ func (*State).Reset
+//@   serves C13
+//@   atomic lock
+//@   ensures cleared: len(state.blocksRequested) == 0 && len(state.blocksToRequest) == 0 && state.pendingBlockSize == 0
+//@   ensures frame: same(state.lastSavedHash, state.startHeight)
+//@   ensures inv: InvQ(state)
+
+//@ func (*State).BlockIsRequested
+//@   serves C13
+//@   atomic lock
+//@   requires hash != nil
+//@   ensures iff: result <==> hitR(state, *hash)
+//@   ensures frame: same(state.blocksRequested, state.blocksToRequest, state.pendingBlockSize, state.lastSavedHash)
+//@   loop 0 invariant 0 <= _i && _i <= len(state.blocksRequested)
+//@   loop 0 invariant forall(k, 0, _i, state.blocksRequested[k].hash != *hash)
+
+//@ func (*State).BlockIsToBeRequested
+//@   serves C13
+//@   atomic lock
+//@   requires hash != nil
+//@   ensures iff: result <==> hitT(state, *hash)
+//@   ensures frame: same(state.blocksRequested, state.blocksToRequest, state.pendingBlockSize, state.lastSavedHash)
+//@   loop 0 invariant 0 <= _i && _i <= len(state.blocksToRequest)
+//@   loop 0 invariant forall(k, 0, _i, state.blocksToRequest[k] != *hash)
+
+//@ func (*State).LastHash
+//@   serves C13 C02
+//@   atomic lock
+//@   ensures value: result == lastOf(state)
+//@   ensures frame: same(state.blocksRequested, state.blocksToRequest, state.pendingBlockSize, state.lastSavedHash)
+
+//@ func (*State).BlocksRequestedCount
+//@   serves C13
+//@   atomic lock
+//@   ensures value: result == len(state.blocksRequested)
+
+//@ func (*State).TotalBlockRequestCount
+//@   serves C13
+//@   atomic lock
+//@   ensures value: result == len(state.blocksRequested) + len(state.blocksToRequest)
+
+//@ func (*State).BlockRequestsEmpty
+//@   serves C13
+//@   atomic lock
+//@   ensures value: result <==> len(state.blocksRequested) == 0 && len(state.blocksToRequest) == 0
+
+//@ lemma pending_zero_when_none_buffered(s *State) : InvQ(s) && forall(k, 0, len(s.blocksRequested), !filled(s.blocksRequested[k])) ==> s.pendingBlockSize == 0
+//@   serves C13
+//@ lemma window_bound(s *State) : InvQ(s) ==> len(s.blocksRequested) <= 10
+//@   serves C13
